@@ -7,6 +7,7 @@
 pub struct Locator { pub opaque: u64 }
 impl Clone for Locator { #[verifier::external_body] fn clone(&self) -> (r: Self) ensures r == *self { unimplemented!() } }
 pub struct TopicCacheHandle { pub opaque: u64 }
+#[derive(Clone, Copy)]
 pub struct Duration { pub opaque: i64 }
 
 // enumflags2::BitFlags<T>: opaque set of flags (the flag values are not part of C03)
